@@ -11,27 +11,30 @@ SHIFT_SOFT = [r'^shift distance too large in .*<< i \* 8']
 D = dict(overlays=['contracts/rle.ovl'], harness='harness/C08/rle.c', prop='C08',
          extra_sources=['stubs/mem_stubs.c', 'stubs/rle_stubs.c'], trusted=STUB_TRUST, wip=True)
 DEC_HELPERS = ['start_new_run', 'fill_bitpack_buffer']
+RLE_SRCS = ['src/encoding/rle.c', 'src/core/bitpack.c', 'src/core/buffer.c']
+FZ_DEC = dict(kind='fuzz', harness='replay/fz/rle_decode.c', sources=RLE_SRCS, max_len=48, secs=20)
+FZ_PFX = dict(kind='fuzz', harness='replay/fz/rle_levels_prefixed.c', sources=RLE_SRCS, max_len=48, secs=20)
 
 JOBS = [
-    dict(name='c08_rle_read_varint', entry='h_rle_read_varint', enforce='read_varint', min_loop_obligations=1, **D),
-    dict(name='c08_rle_start_new_run', entry='h_rle_start_new_run', enforce='start_new_run',
+    dict(name='c08_rle_read_varint', replayer=FZ_DEC, entry='h_rle_read_varint', enforce='read_varint', min_loop_obligations=1, **D),
+    dict(name='c08_rle_start_new_run', replayer=FZ_DEC, entry='h_rle_start_new_run', enforce='start_new_run',
          replace=['start_new_run__rec', 'read_varint'], min_loop_obligations=1, soft=SHIFT_SOFT, **D),
-    dict(name='c08_rle_fill_bitpack_buffer', entry='h_rle_fill_bitpack', enforce='fill_bitpack_buffer',
+    dict(name='c08_rle_fill_bitpack_buffer', replayer=FZ_DEC, entry='h_rle_fill_bitpack', enforce='fill_bitpack_buffer',
          loop_contracts=False, **D),
     dict(name='c08_rle_decoder_init', entry='h_rle_init', enforce='carquet_rle_decoder_init', loop_contracts=False,
          defines=['CQV_MEMSET_EXACT=128'], unwindset=['memset.0:129'], **D),
     dict(name='c08_rle_decoder_has_next', entry='h_rle_has_next', enforce='carquet_rle_decoder_has_next',
          loop_contracts=False, **D),
-    dict(name='c08_rle_decoder_get', entry='h_rle_get', enforce='carquet_rle_decoder_get', replace=DEC_HELPERS,
+    dict(name='c08_rle_decoder_get', replayer=FZ_DEC, entry='h_rle_get', enforce='carquet_rle_decoder_get', replace=DEC_HELPERS,
          loop_contracts=False, **D),
-    dict(name='c08_rle_decoder_get_batch', entry='h_rle_get_batch', enforce='carquet_rle_decoder_get_batch',
+    dict(name='c08_rle_decoder_get_batch', replayer=FZ_DEC, entry='h_rle_get_batch', enforce='carquet_rle_decoder_get_batch',
          replace=DEC_HELPERS, min_loop_obligations=4, est_s=60, **D),
-    dict(name='c08_rle_decoder_skip', entry='h_rle_skip', enforce='carquet_rle_decoder_skip',
+    dict(name='c08_rle_decoder_skip', replayer=FZ_DEC, entry='h_rle_skip', enforce='carquet_rle_decoder_skip',
          replace=DEC_HELPERS, min_loop_obligations=2, est_s=60, **D),
-    dict(name='c08_rle_decode_all', entry='h_rle_decode_all', enforce='carquet_rle_decode_all',
+    dict(name='c08_rle_decode_all', replayer=FZ_DEC, entry='h_rle_decode_all', enforce='carquet_rle_decode_all',
          replace=['carquet_rle_decoder_init', 'carquet_rle_decoder_get_batch'], loop_contracts=False, **D),
-    dict(name='c08_rle_decode_levels', entry='h_rle_decode_levels', enforce='carquet_rle_decode_levels',
+    dict(name='c08_rle_decode_levels', replayer=FZ_DEC, entry='h_rle_decode_levels', enforce='carquet_rle_decode_levels',
          min_loop_obligations=6, soft=SHIFT_SOFT, est_s=90, **D),
-    dict(name='c08_rle_decode_levels_prefixed', entry='h_rle_decode_levels_prefixed',
+    dict(name='c08_rle_decode_levels_prefixed', replayer=FZ_PFX, entry='h_rle_decode_levels_prefixed',
          enforce='carquet_rle_decode_levels_prefixed', replace=['carquet_rle_decode_levels'], loop_contracts=False, **D),
 ]
